@@ -12,7 +12,7 @@ import (
 func init() { register("C10", C10) }
 
 func c10Corpus(c *Ctx) []*corpus.Spec {
-	want := []string{"expr_std", "opt_mid", "auto_tokens"}
+	want := []string{"expr_std", "opt_mid", "auto_tokens", "expr_precedence"}
 	if c.Thorough() {
 		want = append(want, "etf", "lvalue", "expr_nonassoc", "nested_null", "len4", "unit_chain", "dangling_else")
 	}
@@ -79,7 +79,7 @@ func layoutData(specs []*corpus.Spec) (string, [][]string) {
 		toks = append(toks, "{"+strings.Join(ts, ", ")+"}")
 		var pr []string
 		for i, p := range s.Prec {
-			a := map[string]int{"left": 1, "right": 2, "nonassoc": 3}[p.Assoc]
+			a := map[string]int{"left": 1, "right": 2, "nonassoc": 3, "precedence": 3}[p.Assoc]
 			for _, sym := range p.Syms {
 				pr = append(pr, fmt.Sprintf("{Name: %s, Level: %d, Assoc: %d}", q(sym), i+1, a))
 			}
